@@ -102,7 +102,7 @@ def run_index(prop, tier, seed, i):
     chk = registry()[prop]
     rs = H(seed, prop, tier, i)
     sc = chk.generate_indexed(i, random.Random(H(rs, "config")), rs, tier)
-    res = chk.run(sc)
+    res = run_isolated(chk, sc)
     return sc, res
 
 
@@ -138,12 +138,56 @@ def _chunk(args):
         if len(out["samples"]) < 2 and res.violation is None:
             out["samples"].append({"run_index": i, "scenario": sc, "rounds": res.rounds, "cells": res.cells, "digest": res.digest})
         if res.violation is not None:
-            out["violations"].append({"i": i, "info": res.violation, "scenario": sc, "explicit": res.explicit})
+            out["violations"].append({"i": i, "info": res.violation, "scenario": sc, "explicit": res.explicit, "chunk_start": start})
         if res.foreign is not None:
             sig = res.foreign["signature"]
             out["foreign"][sig] += 1
             out["foreign_samples"].setdefault(sig, {"i": i, "detail": res.foreign["detail"]})
     return out
+
+
+def isolated(fn, *a):
+    """Run fn(*a) in a child forked from this process and return its (pickled) result.
+
+    Every simulated run executes in its own forked child of a worker that has only imported
+    PyXAB: process-global state the library may leak between instances (class attributes,
+    module-level caches) can then never carry over from one run to the next, so a run is a
+    function of its scenario alone - in the batch, in the self-tests, during minimisation and in
+    bin/replay alike.  (Leaks between instances *within* a scenario - POO/GPO learners, the two
+    instances of C14 - are of course still there to be found.)"""
+    import pickle
+    r, w = os.pipe()
+    pid = os.fork()
+    if pid == 0:
+        code = 0
+        try:
+            os.close(r)
+            try:
+                data = pickle.dumps(("ok", fn(*a)))
+            except BaseException:  # noqa
+                import traceback
+                data = pickle.dumps(("error", traceback.format_exc()))
+                code = 1
+            with os.fdopen(w, "wb") as f:
+                f.write(data)
+        finally:
+            os._exit(code)
+    os.close(w)
+    with os.fdopen(r, "rb") as f:
+        data = f.read()
+    os.waitpid(pid, 0)
+    if not data:
+        raise engine.HarnessError("isolated run died without a result")
+    kind, out = pickle.loads(data)
+    if kind == "error":
+        raise engine.HarnessError("isolated run failed:\n" + out)
+    return out
+
+
+def run_isolated(chk, sc):
+    if os.environ.get("VERIF_NO_ISOLATION"):
+        return chk.run(sc)
+    return isolated(chk.run, sc)
 
 
 # --------------------------------------------------------------------------- minimiser
@@ -153,7 +197,7 @@ def _try(chk, sc, want_sig, known_status, findings, budget):
         return None
     budget["left"] -= 1
     try:
-        res = chk.run(sc)
+        res = run_isolated(chk, sc)
     except Exception:
         return None
     if res.violation is None or res.violation["signature"] != want_sig:
@@ -199,15 +243,101 @@ def minimise(chk, explicit, info, findings, max_runs=300, max_s=45.0):
 
 # --------------------------------------------------------------------------- replay files
 
-def write_replay(prop, scenario, info, digest, tag):
+def write_replay(prop, scenario, info, digest, tag, sequence_before=None):
     os.makedirs(REPLAY_DIR, exist_ok=True)
     name = "%s-%s-%016x.json" % (prop, info["clause"], H(info["signature"], tag))
     path = os.path.join(REPLAY_DIR, name)
+    doc = {"check": prop, "scenario": scenario,
+           "expect": {"signature": info["signature"], "round": info["round"], "digest": digest, "detail": info["detail"]}}
+    if sequence_before:
+        doc["sequence_before"] = sequence_before
+        doc["note"] = ("the violation needs the earlier instances listed under sequence_before to have run in the same process "
+                       "(state shared between instances); bin/replay runs them first, in order")
     with open(path, "w") as f:
-        json.dump({"check": prop, "scenario": scenario,
-                   "expect": {"signature": info["signature"], "round": info["round"], "digest": digest, "detail": info["detail"]}},
-                  f, indent=1, default=_json_default)
+        json.dump(doc, f, indent=1, default=_json_default)
     return path
+
+
+def _fresh_ok(path, sig):
+    fr = replay_in_fresh_interpreter(path)
+    return fr.get("signature") == sig, fr
+
+
+def report_violation(chk, prop, tier, seed, v, findings):
+    """Minimise, write a replay file and make sure it reproduces in a fresh interpreter.
+    Returns (path, note)."""
+    sig = v["info"]["signature"]
+    fresh = not os.environ.get("VERIF_NO_FRESH")
+    mini, mres = minimise(chk, v["explicit"], v["info"], findings)
+    if mres is not None:
+        path = write_replay(prop, mini, mres.violation, mres.digest, "min")
+        if not fresh:
+            return path, "minimised to %d rounds" % (mini.get("A") or mini).get("rounds", -1)
+        ok, fr = _fresh_ok(path, sig)
+        if ok and fr.get("digest") == mres.digest:
+            return path, "minimised to %d rounds; reproduced in a fresh interpreter" % (mini.get("A") or mini).get("rounds", -1)
+    # the concretised original
+    res = None
+    try:
+        res = run_isolated(chk, v["explicit"])
+    except Exception:
+        res = None
+    path = write_replay(prop, v["explicit"], v["info"], res.digest if res is not None else "", "explicit-%d" % v["i"])
+    if not fresh:
+        return path, "explicit (unminimised) form"
+    ok, fr = _fresh_ok(path, sig)
+    if ok:
+        rp = json.load(open(path))
+        rp["expect"]["digest"] = fr.get("digest")
+        rp["expect"]["round"] = fr.get("round")
+        json.dump(rp, open(path, "w"), indent=1, default=_json_default)
+        return path, "explicit (unminimised) form; reproduced in a fresh interpreter"
+    # depends on earlier instances in the same process: replay the chunk's runs as a sequence, then drop what is not needed
+    start = v.get("chunk_start", v["i"])
+    before = [run_index_scenario(prop, tier, seed, j) for j in range(start, v["i"])]
+    target = v["scenario"]
+
+    def attempt(seq):
+        p2 = write_replay(prop, target, v["info"], "", "seq-%d" % v["i"], sequence_before=seq)
+        ok2, fr2 = _fresh_ok(p2, sig)
+        return ok2, fr2, p2
+    ok, fr, path = attempt(before)
+    if not ok:
+        path = write_replay(prop, target, v["info"], "", "orig-%d" % v["i"])
+        return path, ("observed in the batch but NOT reproduced in a fresh interpreter, neither alone nor after the %d earlier runs of its "
+                      "chunk (replay file holds the generating scenario)" % len(before))
+    # ddmin-lite on the prefix (each attempt is a fresh interpreter)
+    tries = 0
+    size = max(1, len(before) // 2)
+    while size >= 1 and tries < 24 and len(before) > 1:
+        k = 0
+        shrunk = False
+        while k < len(before) and tries < 24:
+            cand = before[:k] + before[k + size:]
+            tries += 1
+            ok2, fr2, _ = attempt(cand)
+            if ok2:
+                before = cand
+                fr = fr2
+                shrunk = True
+            else:
+                k += size
+        if size == 1 and not shrunk:
+            break
+        size = max(1, size // 2) if size > 1 else (1 if shrunk else 0)
+    ok, fr, path = attempt(before)
+    rp = json.load(open(path))
+    rp["expect"]["digest"] = fr.get("digest")
+    rp["expect"]["round"] = fr.get("round")
+    json.dump(rp, open(path, "w"), indent=1, default=_json_default)
+    return path, ("needs %d earlier instance(s) in the same process (state shared between instances); sequence replay reproduced in a "
+                  "fresh interpreter" % len(before))
+
+
+def run_index_scenario(prop, tier, seed, i):
+    chk = registry()[prop]
+    rs = H(seed, prop, tier, i)
+    return chk.generate_indexed(i, random.Random(H(rs, "config")), rs, tier)
 
 
 def _json_default(o):
@@ -226,6 +356,9 @@ def replay(path, quiet=False):
     with open(path) as f:
         rp = json.load(f)
     chk = registry()[rp["check"]]
+    for prior in rp.get("sequence_before") or []:
+        # earlier instances in the same process (the violation depends on state they leave behind)
+        chk.run(prior)
     res = chk.run(rp["scenario"])
     exp = rp.get("expect") or {}
     if res.violation is None:
@@ -349,21 +482,7 @@ def run_check(prop, tier, seed, workers=None, n_override=None, budget_s=None):
     exit_code = 0
     replays = []
     for sig, vs, v in new_violations[:6]:
-        mini, mres = minimise(chk, v["explicit"], v["info"], findings)
-        if mres is None:
-            # the concretised form did not reproduce; report the generating scenario itself
-            res = chk.run(v["scenario"])
-            info = res.violation or v["info"]
-            path = write_replay(prop, v["scenario"], info, res.digest, "orig-%d" % v["i"])
-            note = "unminimised (concretised form did not reproduce: harness defect)"
-        else:
-            path = write_replay(prop, mini, mres.violation, mres.digest, "min")
-            note = "minimised to %d rounds" % (mini.get("A") or mini).get("rounds", -1)
-            if not os.environ.get("VERIF_NO_FRESH"):
-                fr = replay_in_fresh_interpreter(path)
-                if fr.get("signature") != mres.violation["signature"] or fr.get("digest") != mres.digest:
-                    path = write_replay(prop, v["explicit"], v["info"], "", "explicit-%d" % v["i"])
-                    note = "minimised replay was not stable in a fresh interpreter; explicit form reported"
+        path, note = report_violation(chk, prop, tier, seed, v, findings)
         print("  signature=%s runs=%d first_run_index=%d seed=%d %s" % (sig, len(vs), v["i"], seed, note))
         print("  detail: %s" % v["info"]["detail"])
         print("VIOLATION property=%s replay=%s" % (prop, path))
@@ -380,7 +499,7 @@ def run_check(prop, tier, seed, workers=None, n_override=None, budget_s=None):
         wpath = os.path.join(VERIF, f["witness"]) if f.get("witness") else None
         status = "no-witness"
         if wpath and os.path.exists(wpath):
-            code, res = replay(wpath, quiet=True)
+            code, res = isolated(replay, wpath, True)
             if code == 1 and match_finding(res.violation, json.load(open(wpath))["scenario"], findings) is f:
                 status = "reproduced"
             elif code == 1:
@@ -405,7 +524,7 @@ def run_check(prop, tier, seed, workers=None, n_override=None, budget_s=None):
             if not (name.startswith(prop + "-") and name.endswith(".json")):
                 continue
             wpath = os.path.join(fdir, name)
-            code, res = replay(wpath, quiet=True)
+            code, res = isolated(replay, wpath, True)
             regress[name] = "quiet" if code == 0 else res.violation["signature"]
             if code == 1:
                 print("  repaired defect is back: %s (%s)" % (res.violation["signature"], res.violation["detail"][:160]))
